@@ -17,6 +17,7 @@ CONSTANTS
  RandChoices <- MC_RandChoices
  Msgs <- MC_Msgs
  MaxExtra <- MC_MaxExtra
+ ListOrders <- MC_ListOrders
  EMIT <- MC_EMIT
 INIT Init
 NEXT Next
